@@ -96,7 +96,7 @@ pub fn check(rep: &Report) {
         let multi_sender = (0..sc.nodes.len()).any(|n| { let mut s: Vec<i64> = sent_to[&n].iter().filter_map(|m| is_msg(m).map(|x| x.1)).collect(); s.sort(); s.dedup(); s.len() > 1 });
         if total_msgs > 0 { rep.distinct(sc.hash()); }
         if multi_sender { rep.count("scenarios_with_fan_in", 1); }
-        if i < 2 { rep.sample(json!({"scenario_source": src, "messages": total_msgs})); }
+        if rep.want_sample() { rep.sample(json!({"scenario_source": src, "messages": total_msgs})); }
         rep.count("scenarios", 1);
         rep.count("messages_per_scenario_total", total_msgs as u64);
         let scheds = sched_variants(&mut rng, n_sched);
